@@ -17,7 +17,7 @@ def CreateConnection : List String := ["connLock.Lock", "connLock.Unlock", "conn
 def DropStaleIndex : List String := ["mu.Lock", "mu.Unlock", "delete"]
 def GetByClientID : List String := ["mu.RLock", "mu.RUnlock"]
 def KickOldConnection : List String := ["mu.Lock", "unindexLocked", "delete", "mu.Unlock", "sendKickFn", "stream.Close"]
-def Register : List String := ["mu.Lock", "findOldestConnectionLocked", "mu.Unlock", "mu.Unlock", "mu.Lock", "mu.Unlock", "removeConnectionLocked"]
+def Register : List String := ["mu.Lock", "mu.Unlock", "findOldestConnectionLocked", "removeConnectionLocked", "removeConnectionLocked"]
 def Remove : List String := ["mu.Lock", "mu.Unlock", "removeConnectionLocked"]
 def RemoveControlConnection : List String := ["clientRegistry.GetByConnID", "clientRegistry.Remove"]
 def TunnelRemove : List String := ["mu.Lock", "mu.Unlock", "delete", "delete"]
@@ -35,7 +35,7 @@ def CleanupStale : List String := ["range r.connMap", "if conn.IsStale(timeout)"
 def CloseConnection : List String := ["if exists", "if conn != nil", "if conn.Stream != nil", "if conn.RawConn != nil", "if s.connStateStore != nil", "if err := s.connStateStore.UnregisterConnection(s.Ctx(), connectionId); err != nil"]
 def DropStaleIndex : List String := ["if conn == nil", "range r.clientIDMap", "if indexed == conn && clientID != conn.ClientID"]
 def KickOldConnection : List String := ["if oldConn != nil && oldConn.ConnID != newConnID", "if connInfo != nil", "if sendKickFn != nil && oldConnForCallback != nil", "if connInfo.stream != nil"]
-def Register : List String := ["if conn == nil", "if conn.ConnID == \"\"", "if r.maxConnections > 0 && len(r.connMap) >= r.maxConnections", "if evicted == nil", "if evicted != nil && evicted.Stream != nil", "if existing, exists := r.connMap[conn.ConnID]; exists", "if conn.Authenticated && conn.ClientID > 0"]
+def Register : List String := ["if conn == nil", "if conn.ConnID == \"\"", "if r.maxConnections > 0 && len(r.connMap) >= r.maxConnections", "if oldestConn != nil", "if existing, exists := r.connMap[conn.ConnID]; exists", "if conn.Authenticated && conn.ClientID > 0"]
 def Unregister : List String := ["if !exists"]
 def UpdateAuth : List String := ["if !exists"]
 def findOldestConnectionLocked : List String := ["range r.connMap", "if oldestConn == nil || conn.CreatedAt.Before(oldestTime)"]
